@@ -123,7 +123,19 @@ def register_dominance(R):
     from .c_containers import USE_VIEWS
     USE.update(USE_VIEWS)
     WATCH = {D + 'ConfigDict.ayns.set_child': 'adopt', C + 'ComposedNode.ayns.get_child': 'lookup-child',
-             N + 'ConfigNode.ayns._require_all_new': 'require-new', C + 'ComposedNode.ayns._require_all_new': 'require-new'}
+             N + 'ConfigNode.ayns._require_all_new': 'require-new', C + 'ComposedNode.ayns._require_all_new': 'require-new',
+             C + 'ComposedNode.ayns.filter_nodes': 'C04+C05.pruning-walk'}
+
+    def gate_filter(sc, kw):
+        # the pruning walk of a deleting merge runs over the OLDER node, with the predicate that compares by relative path
+        # (maybe_keep, proved above under exactly this calling convention), and it is told where the two nodes live: the
+        # predicate strips len(path) leading components, so the walk has to start its paths at `path`
+        from pyvc.values import FuncV
+        recv, cond = kw['args'][0], kw['args'][1]
+        pre = kw['kwargs'].get('prefix')
+        if not isinstance(pre, PathV) or not isinstance(cond, FuncV) or not cond.fi.key.endswith('on_merge_impl.maybe_keep'):
+            return z3.BoolVal(False)
+        return z3.And(recv.t == sc['self'], pre.s == sc.a['path'].s)
 
     def gate_adopt(sc, kw):
         selfv, name, value = kw['args'][0], kw['args'][1], kw['args'][2]
@@ -144,7 +156,7 @@ def register_dominance(R):
                    loops={0: Loop(lambda c, L: [], mod_locals=['key', 'value', 'child', 'merge', 'possibly_new_child'], mod_fields=NODEF)},
                    props=('C08',),
                    opts={'use': USE, 'watch': WATCH, 'verify_only': True, 'no_search': True, 'assume_children_are_objects': True, 'no_frame': True,
-                         'gates': {'adopt': gate_adopt, 'lookup-child': ok, 'require-new': ok},
+                         'gates': {'adopt': gate_adopt, 'lookup-child': ok, 'require-new': ok, 'C04+C05.pruning-walk': gate_filter},
                          'gates_on_raise': True, 'skip_kinds': ('pre', 'safety')},
                    note='order of operations in one iteration of the key loop: adoption of a key the older mapping lacks is dominated by the new-path check; callee preconditions and run-time type safety are NOT obligations of this instance (they belong to the functional contracts)'))
 
